@@ -76,18 +76,21 @@ def _join(parent: str, name: str) -> str:
     return '/' + name if parent == '/' else parent + '/' + name
 
 
-def _check_tree(tree, where='/'):
-    if not isinstance(tree, dict):
-        raise TypeError(f'{where}: directory must be a dict')
-    for name, value in tree.items():
-        if not isinstance(name, str):
-            raise TypeError(f'{where}: name {name!r} is not a str')
-        if len(name) < 1:
-            raise ValueError(f'{where}: empty name')
-        if isinstance(value, dict):
-            _check_tree(value, _join(where, name))
-        elif not isinstance(value, (bytes, bytearray, memoryview)):
-            raise TypeError(f'{_join(where, name)}: value must be bytes or dict, not {type(value).__name__}')
+def _check_tree(tree):
+    stack = [('/', tree)]
+    while stack:  # iterative: trees may be deeper than the interpreter's recursion limit
+        where, node = stack.pop()
+        if not isinstance(node, dict):
+            raise TypeError(f'{where}: directory must be a dict')
+        for name, value in node.items():
+            if not isinstance(name, str):
+                raise TypeError(f'{where}: name {name!r} is not a str')
+            if len(name) < 1:
+                raise ValueError(f'{where}: empty name')
+            if isinstance(value, dict):
+                stack.append((_join(where, name), value))
+            elif not isinstance(value, (bytes, bytearray, memoryview)):
+                raise TypeError(f'{_join(where, name)}: value must be bytes or dict, not {type(value).__name__}')
 
 
 def flatten(tree: dict) -> dict:
@@ -542,9 +545,22 @@ def _selftest(count: int = 320, seed: int = 0x3D5, verbose: bool = True) -> dict
     warnings.simplefilter('ignore')
     from pyctr.type.romfs import RomFSReader  # only place where pyctr is imported
 
+    import logging
+    import signal
+    logging.getLogger('pyctr.type.romfs').setLevel(logging.CRITICAL)  # "collision" warnings, endless when it hangs
+
+    class _Hang(BaseException):
+        pass
+
+    def _on_alarm(signum, frame):
+        raise _Hang('no result after 1 s (endless loop)')
+
+    signal.signal(signal.SIGALRM, _on_alarm)
+    raw_probe_trees = 40
+
     rng = random.Random(seed)
     stats = {'trees': 0, 'opens': 0, 'paths': 0, 'ci_paths': 0, 'ci_skipped': 0, 'raw_nonzero_start_ok': 0,
-             'raw_nonzero_start_bad': 0, 'raw_nonzero_start_examples': [], 'listdir_on_file_typeerror': 0}
+             'raw_nonzero_start_bad': 0, 'raw_nonzero_start_examples': {}, 'listdir_on_file_typeerror': 0}
 
     def check_reader(r, flat, ci_safe):
         # walk
@@ -703,11 +719,13 @@ def _selftest(count: int = 320, seed: int = 0x3D5, verbose: bool = True) -> dict
                     stats['opens'] += 1
                     check_reader(r, flat, ci_safe)
                     r.close()
-                if start != 0:
+                if start != 0 and n < raw_probe_trees:
                     # the literal request: a plain BytesIO positioned at a non-zero start.  RomFSReader adds the start
-                    # offset twice (see _selftest docstring / report), so this is recorded, not asserted.
+                    # offset twice (it seeks to self._start + lv3_offset where lv3_offset already contains tell()),
+                    # so it parses junk: wrong results, exceptions or an endless loop.  Recorded, not asserted.
                     f = io.BytesIO(buf)
                     f.seek(start)
+                    signal.setitimer(signal.ITIMER_REAL, 1.0)
                     try:
                         r = RomFSReader(f, case_insensitive=False)
                         check_reader(r, flat, ci_safe)
@@ -715,9 +733,11 @@ def _selftest(count: int = 320, seed: int = 0x3D5, verbose: bool = True) -> dict
                         stats['raw_nonzero_start_ok'] += 1
                     except BaseException as e:
                         stats['raw_nonzero_start_bad'] += 1
-                        if len(stats['raw_nonzero_start_examples']) < 6:
-                            stats['raw_nonzero_start_examples'].append(
-                                f'{label} start={start:#x}: {type(e).__name__}: {str(e)[:100]}')
+                        what = f'{type(e).__name__}: {str(e)[:60]}'
+                        stats['raw_nonzero_start_examples'][what] = \
+                            stats['raw_nonzero_start_examples'].get(what, 0) + 1
+                    finally:
+                        signal.setitimer(signal.ITIMER_REAL, 0)
 
     # deterministic: same seed, same bytes
     t1 = random_tree(random.Random(99), allow_case_collisions=True)
